@@ -265,6 +265,11 @@ class TermExec:
                 self.ev(e['l'])
                 return self.ev(e['r'])
             return self.arith(op, self.ev(e['l']), self.ev(e['r']))
+        if k == 'cond':
+            c = self.ev(e['c'])
+            if not (isinstance(c, N) and c.op == 'const'):
+                raise Unsupported('?: on a non-constant condition')
+            return self.ev(e['a'] if c.a[0] else e['b'])
         if k == 'ctor':
             if len(e['args']) == 1:
                 return self.ev(e['args'][0])
